@@ -748,4 +748,364 @@ theorem run_Run (cfg : Cfg ID) (c : Consumer ID) (fuel : Nat) (ch : List Nat) (s
       · rename_i s' hs
         exact Run.head hs (ih _ s')
 
+/-! ### The executable statement (`specOK`) means what it should -/
+
+theorem mem_addNew (S xs : List ID) (x : ID) : x ∈ addNew S xs ↔ x ∈ S ∨ x ∈ xs := by
+  unfold addNew
+  induction xs generalizing S with
+  | nil => simp
+  | cons y ys ih =>
+    simp only [List.foldl_cons, ih, List.mem_cons]
+    by_cases hy : y ∈ S
+    · simp only [hy, if_true]
+      constructor
+      · rintro (h | h)
+        · exact Or.inl h
+        · exact Or.inr (Or.inr h)
+      · rintro (h | h | h)
+        · exact Or.inl h
+        · exact Or.inl (h ▸ hy)
+        · exact Or.inr h
+    · simp only [hy, if_false, List.mem_append, List.mem_singleton]
+      constructor
+      · rintro ((h | h) | h)
+        · exact Or.inl h
+        · exact Or.inr (Or.inl h)
+        · exact Or.inr (Or.inr h)
+      · rintro (h | h | h)
+        · exact Or.inl (Or.inl h)
+        · exact Or.inl (Or.inr h)
+        · exact Or.inr h
+
+theorem reachN_sound (cfg : Cfg ID) (roots : List ID) (n : Nat) :
+    ∀ t ∈ reachN cfg roots n, Reach cfg roots t := by
+  induction n with
+  | zero =>
+    intro t ht
+    simp only [reachN, mem_addNew] at ht
+    rcases ht with h | h
+    · cases h
+    · exact .root h
+  | succ n ih =>
+    intro t ht
+    simp only [reachN, expand, mem_addNew, List.mem_flatMap] at ht
+    rcases ht with h | ⟨u, hu, hc⟩
+    · exact ih t h
+    · exact .child (ih u hu) hc
+
+theorem reachN_mono (cfg : Cfg ID) (roots : List ID) (n k : Nat) :
+    ∀ t ∈ reachN cfg roots n, t ∈ reachN cfg roots (n + k) := by
+  induction k with
+  | zero => intro t ht; exact ht
+  | succ k ih =>
+    intro t ht
+    show t ∈ expand cfg (reachN cfg roots (n + k))
+    simp only [expand, mem_addNew]
+    exact Or.inl (ih t ht)
+
+/-- every reachable tree is found by the bounded search for a large enough bound -/
+theorem reachN_complete (cfg : Cfg ID) (roots : List ID) {t : ID} (h : Reach cfg roots t) :
+    ∃ n, t ∈ reachN cfg roots n := by
+  induction h with
+  | root hr => exact ⟨0, by simp [reachN, mem_addNew, hr]⟩
+  | @child u c _ hc ih =>
+    obtain ⟨n, hn⟩ := ih
+    refine ⟨n + 1, ?_⟩
+    simp only [reachN, expand, mem_addNew, List.mem_flatMap]
+    exact Or.inr ⟨u, hn, hc⟩
+
+theorem subsetB_iff (a b : List ID) : subsetB a b = true ↔ ∀ x ∈ a, x ∈ b := by
+  simp [subsetB]
+
+theorem closedB_iff (cfg : Cfg ID) (S : List ID) : closedB cfg S = true ↔ ClosedSet cfg S := by
+  simp [closedB, ClosedSet]
+
+/-- a closed set containing the roots contains everything reachable -/
+theorem reach_sub_closed {cfg : Cfg ID} {roots S : List ID} (hr : ∀ r ∈ roots, r ∈ S)
+    (hc : ClosedSet cfg S) : ∀ t, Reach cfg roots t → t ∈ S := by
+  intro t h
+  induction h with
+  | root h => exact hr _ h
+  | child _ hc' ih => exact hc _ ih _ hc'
+
+/-- **specOK_sound**: what the driver evaluates on the implementation's output is the property:
+    the tree set is exactly the reachable set, the data set exactly the file contents of the
+    reachable trees, every reachable tree decoded completely, and each was loaded exactly once. -/
+theorem specOK_sound {cfg : Cfg ID} {roots : List ID} {n : Nat} {trees data loads : List ID}
+    (h : specOK cfg roots n trees data loads = true) :
+    (∀ t, t ∈ trees ↔ Reach cfg roots t) ∧
+    (∀ b, b ∈ data ↔ ∃ t, Reach cfg roots t ∧ b ∈ treeBlobs cfg t) ∧
+    (∀ t, Reach cfg roots t → good cfg t = true) ∧
+    (∀ t, Reach cfg roots t → loads.count t = 1) ∧ (∀ t ∈ loads, Reach cfg roots t) := by
+  simp only [specOK, Bool.and_eq_true, subsetB_iff, closedB_iff, List.all_eq_true,
+    decide_eq_true_eq, List.mem_flatMap] at h
+  obtain ⟨⟨⟨⟨⟨⟨⟨⟨h1, h2⟩, h3⟩, h4⟩, h5⟩, h6⟩, h7⟩, h8⟩, h9⟩ := h
+  have ht : ∀ t, t ∈ trees ↔ Reach cfg roots t := fun t =>
+    ⟨fun h => reachN_sound cfg roots n t (h3 t h), reach_sub_closed h1 h2 t⟩
+  refine ⟨ht, ?_, ?_, ?_, ?_⟩
+  · intro b
+    constructor
+    · intro hb
+      obtain ⟨t, htR, hbt⟩ := h4 b hb
+      exact ⟨t, reachN_sound cfg roots n t htR, hbt⟩
+    · rintro ⟨t, htR, hbt⟩
+      exact h5 b ⟨t, (ht t).mpr htR, hbt⟩
+  · intro t htR; exact h6 t ((ht t).mpr htR)
+  · intro t htR
+    have hm : t ∈ loads := h8 t ((ht t).mpr htR)
+    have h1 := h7 t hm
+    have h2 : 0 < loads.count t := List.count_pos_iff.mpr hm
+    omega
+  · intro t hm; exact (ht t).mp (h9 t hm)
+
+/-- an error return is only accepted when some reachable tree really is missing or undecodable -/
+theorem specErrOK_sound {cfg : Cfg ID} {roots : List ID} {n : Nat} {loads : List ID}
+    (h : specErrOK cfg roots n loads = true) :
+    (∃ t, Reach cfg roots t ∧ good cfg t = false) ∧ ∀ t, loads.count t ≤ 1 := by
+  simp only [specErrOK, Bool.and_eq_true, List.any_eq_true, List.all_eq_true,
+    decide_eq_true_eq, Bool.not_eq_true'] at h
+  obtain ⟨⟨t, htR, hg⟩, h2⟩ := h
+  refine ⟨⟨t, reachN_sound cfg roots n t htR, hg⟩, ?_⟩
+  intro t
+  by_cases hm : t ∈ loads
+  · exact h2 t hm
+  · simp [List.count_eq_zero.mpr hm]
+
+/-! ### The transcription meets the executable statement -/
+
+theorem loads_of_processed {cfg : Cfg ID} {c : Consumer ID} {s0 s : State ID}
+    (h0 : ∀ t, ¬ processed s0 t) (h : Run cfg c s0 s) : ∀ t, processed s t → t ∈ s.loads := by
+  induction h with
+  | refl => intro t ht; exact absurd ht (h0 t)
+  | @tail s' s'' a hrun hs ih =>
+    have hst := step_Step hs
+    cases hst with
+    | popSkip _ _ _ _ => exact ih
+    | popMark _ _ _ _ => exact ih
+    | send _ _ => exact ih
+    | workAbort _ _ _ => intro t ht; exact List.mem_cons_of_mem _ (ih t ht)
+    | workPanic _ _ _ _ => intro t ht; exact List.mem_cons_of_mem _ (ih t ht)
+    | @workDone id bl rep dr _ hm hpr =>
+      rintro t (⟨subs, h⟩ | h)
+      · rcases List.mem_cons.mp h with h | h
+        · have : t = id := by simpa using congrArg Prod.fst h
+          exact this ▸ List.mem_cons_self
+        · exact List.mem_cons_of_mem _ (ih t (Or.inl ⟨subs, h⟩))
+      · exact List.mem_cons_of_mem _ (ih t (Or.inr h))
+    | @recv id subs _ hm =>
+      rintro t (⟨subs', h⟩ | h)
+      · exact ih t (Or.inl ⟨subs', List.mem_of_mem_erase h⟩)
+      · rcases List.mem_cons.mp h with h | h
+        · exact ih t (Or.inl ⟨subs, h ▸ hm⟩)
+        · exact ih t (Or.inr h)
+
+theorem reachN_cover (cfg : Cfg ID) (roots : List ID) (l : List ID)
+    (h : ∀ t ∈ l, Reach cfg roots t) : ∃ n0, ∀ n, n0 ≤ n → ∀ t ∈ l, t ∈ reachN cfg roots n := by
+  induction l with
+  | nil => exact ⟨0, fun _ _ t ht => by cases ht⟩
+  | cons x xs ih =>
+    obtain ⟨n1, h1⟩ := ih (fun t ht => h t (List.mem_cons_of_mem _ ht))
+    obtain ⟨n2, h2⟩ := reachN_complete cfg roots (h x List.mem_cons_self)
+    refine ⟨n1 + n2, ?_⟩
+    intro n hn t ht
+    rcases List.mem_cons.mp ht with h | h
+    · subst h
+      have := reachN_mono cfg roots n2 (n - n2) t h2
+      rwa [Nat.add_sub_cancel' (by omega)] at this
+    · exact h1 n (by omega) t h
+
+/-- **findUsed_meets_spec** (transcription ⇒ statement): whenever the model of `FindUsedBlobs`
+    returns normally — under any schedule — its outputs satisfy `specOK` for every sufficiently
+    large search bound of the reference computation. -/
+theorem findUsed_meets_spec {cfg : Cfg ID} {roots : List ID} {s : State ID}
+    (h : Run cfg findUsed (init roots [] []) s) (ht : terminal s = true) :
+    ∃ n0, ∀ n, n0 ≤ n → specOK cfg roots n s.seen s.blobs s.loads = true := by
+  have hT := traverse_exact_trees_empty h ht
+  have hB := traverse_exact_blobs (findUsed_blobLaw cfg) h ht (by intro t ht; cases ht)
+    (by intro t ht; cases ht)
+  have hG := missing_tree_is_error (findUsed_strictLaw cfg) h ht (by intro t ht; cases ht)
+  have hO := each_tree_once h
+  have hP := seen_processed h ht
+  have hL := loads_of_processed (init_not_processed roots [] []) h
+  obtain ⟨n0, hn0⟩ := reachN_cover cfg roots s.seen (fun t ht => (hT t).mp ht)
+  refine ⟨n0, fun n hn => ?_⟩
+  simp only [specOK, Bool.and_eq_true, subsetB_iff, closedB_iff, List.all_eq_true,
+    decide_eq_true_eq, List.mem_flatMap]
+  refine ⟨⟨⟨⟨⟨⟨⟨⟨?_, ?_⟩, ?_⟩, ?_⟩, ?_⟩, ?_⟩, ?_⟩, ?_⟩, ?_⟩
+  · intro r hr; exact (hT r).mpr (.root hr)
+  · intro t ht c hc; exact (hT c).mpr (.child ((hT t).mp ht) hc)
+  · exact hn0 n hn
+  · intro b hb
+    rcases (hB b).mp hb with h | ⟨t, htR, hbt⟩
+    · cases h
+    · exact ⟨t, hn0 n hn t ((hT t).mpr htR), hbt⟩
+  · rintro b ⟨t, hts, hbt⟩
+    exact (hB b).mpr (Or.inr ⟨t, (hT t).mp hts, hbt⟩)
+  · intro t hts
+    rcases hG t ((hT t).mp hts) with h | h
+    · cases h
+    · exact h
+  · intro t _; exact hO.1 t
+  · intro t hts
+    rcases hP t hts with h | h
+    · cases h
+    · exact hL t (Or.inr h)
+  · intro t hl; exact (hO.2 t hl).1
+
+/-! ### Termination: every schedule finishes on a finite store -/
+
+/-- work still queued, weighted by how many moves it is away from being received -/
+def weight (s : State ID) : Nat :=
+  4 * s.backlog.length + (if s.pending.isSome then 3 else 0) + 2 * s.outstanding.length + s.done.length
+
+/-- trees of the (finite) universe `U` whose job has not been received yet -/
+def unrecv (U : List ID) (s : State ID) : Nat :=
+  (U.filter fun t => decide (t ∉ s.received)).length
+
+theorem filter_length_le {l : List ID} {p q : ID → Bool} (hpq : ∀ x, q x = true → p x = true) :
+    (l.filter q).length ≤ (l.filter p).length := by
+  induction l with
+  | nil => simp
+  | cons y ys ih =>
+    by_cases hqy : q y = true
+    · rw [List.filter_cons_of_pos hqy, List.filter_cons_of_pos (hpq y hqy)]
+      simp only [List.length_cons]; omega
+    · rw [List.filter_cons_of_neg hqy]
+      by_cases hpy : p y = true
+      · rw [List.filter_cons_of_pos hpy]; simp only [List.length_cons]; omega
+      · rw [List.filter_cons_of_neg hpy]; exact ih
+
+theorem filter_length_lt {l : List ID} {p q : ID → Bool} (hpq : ∀ x, q x = true → p x = true)
+    {a : ID} (ha : a ∈ l) (hp : p a = true) (hq : q a = false) :
+    (l.filter q).length < (l.filter p).length := by
+  induction l with
+  | nil => cases ha
+  | cons x xs ih =>
+    have hle : (xs.filter q).length ≤ (xs.filter p).length := filter_length_le hpq
+    rcases List.mem_cons.mp ha with h | h
+    · subst h
+      rw [List.filter_cons_of_pos hp, List.filter_cons_of_neg (by simp [hq])]
+      simp only [List.length_cons]; omega
+    · have := ih h
+      by_cases hqx : q x = true
+      · rw [List.filter_cons_of_pos hqx, List.filter_cons_of_pos (hpq x hqx)]
+        simp only [List.length_cons]; omega
+      · rw [List.filter_cons_of_neg hqx]
+        by_cases hpx : p x = true
+        · rw [List.filter_cons_of_pos hpx]; simp only [List.length_cons]; omega
+        · rw [List.filter_cons_of_neg hpx]; exact this
+
+/-- jobs handed back (waiting or received) never outnumber the loads of that tree -/
+def Handed (s : State ID) : Prop :=
+  ∀ t, (s.done.map Prod.fst).count t + s.received.count t ≤ s.loads.count t
+
+theorem handed_step {cfg : Cfg ID} {c : Consumer ID} {s s' : State ID}
+    (hh : Handed s) (h : Step cfg c s s') : Handed s' := by
+  cases h with
+  | popSkip _ _ _ _ => exact hh
+  | popMark _ _ _ _ => exact hh
+  | send _ _ => exact hh
+  | workAbort _ _ _ => intro t; have := hh t; simp only [List.count_cons]; split <;> omega
+  | workPanic _ _ _ _ => intro t; have := hh t; simp only [List.count_cons]; split <;> omega
+  | workDone _ _ _ =>
+    intro t; have := hh t
+    simp only [List.map_cons, List.count_cons]
+    split <;> omega
+  | @recv id subs _ hm =>
+    intro t
+    have := hh t
+    have hp : (s.done.map Prod.fst).Perm (id :: (s.done.erase (id, subs)).map Prod.fst) :=
+      (List.perm_cons_erase hm).map Prod.fst
+    have hc := hp.count_eq t
+    by_cases ht : id = t
+    · subst ht; simp at hc ⊢; omega
+    · simp [ht] at hc ⊢; omega
+
+theorem handed_run {cfg : Cfg ID} {c : Consumer ID} {roots seen0 blobs0 : List ID} {s : State ID}
+    (h : Run cfg c (init roots seen0 blobs0) s) : Handed s := by
+  generalize hs0 : init roots seen0 blobs0 = s0 at h
+  induction h with
+  | refl => subst hs0; intro t; simp [init]
+  | tail a _ hs ih => exact handed_step ih (step_Step hs)
+
+/-- **termination**: if the reachable trees lie in a finite list `U` (finite repository), every
+    step of every schedule strictly decreases the lexicographic measure `(unrecv, weight)`;
+    hence no schedule runs forever, and by `progress` every schedule ends terminal, failed (or,
+    for a non-draining consumer, panicked). -/
+theorem measure_decreases {cfg : Cfg ID} {c : Consumer ID} {roots seen0 blobs0 U : List ID}
+    (hU : ∀ t, Reach cfg roots t → t ∈ U) {s s' : State ID}
+    (h : Run cfg c (init roots seen0 blobs0) s) {a : Action ID} (hs : step cfg c a s = some s') :
+    unrecv U s' < unrecv U s ∨ (unrecv U s' = unrecv U s ∧ weight s' < weight s) := by
+  have hst := step_Step hs
+  have hi := inv_run h hst.running
+  have hh := handed_run h
+  have ho := (each_tree_once h).1
+  cases hst with
+  | popSkip _ hp hb _ => right; simp [unrecv, weight, hp, hb] <;> omega
+  | popMark _ hp hb _ => right; simp [unrecv, weight, hp, hb] <;> omega
+  | send _ hp => right; simp [unrecv, weight, hp] <;> omega
+  | workAbort _ hm _ =>
+    right
+    have := List.length_erase_of_mem hm
+    have hpos : 0 < s.outstanding.length := List.length_pos_of_mem hm
+    simp [unrecv, weight, this] <;> omega
+  | workPanic _ hm _ _ =>
+    right
+    have := List.length_erase_of_mem hm
+    have hpos : 0 < s.outstanding.length := List.length_pos_of_mem hm
+    simp [unrecv, weight, this] <;> omega
+  | workDone _ hm _ =>
+    right
+    have := List.length_erase_of_mem hm
+    have hpos : 0 < s.outstanding.length := List.length_pos_of_mem hm
+    simp [unrecv, weight, this] <;> omega
+  | @recv id subs _ hm =>
+    left
+    have hidU : id ∈ U := hU id (hi.doneReach _ hm)
+    have hnr : id ∉ s.received := by
+      intro hr
+      have h1 : 0 < s.received.count id := List.count_pos_iff.mpr hr
+      have h2 : 0 < (s.done.map Prod.fst).count id :=
+        List.count_pos_iff.mpr (List.mem_map.mpr ⟨(id, subs), hm, rfl⟩)
+      have := hh id; have := ho id; omega
+    unfold unrecv
+    apply filter_length_lt (a := id) _ hidU
+    · simpa using hnr
+    · simp
+    · intro x hx
+      simp only [decide_eq_true_eq, List.mem_cons, not_or] at hx ⊢
+      exact hx.2
+
+/-! ### Non-vacuity and the negation witness for the unfixed checker -/
+
+/-- a diamond: tree 4 is shared by 2 and 3 -/
+def exStore : Nat → Loaded Nat
+  | 1 => .tree [{ kind := .dir, content := [], subtree := some 2 }, { kind := .dir, content := [], subtree := some 3 },
+                { kind := .dir, content := [], subtree := some 0 }] false
+  | 2 => .tree [{ kind := .dir, content := [], subtree := some 4 }, { kind := .file, content := [10], subtree := none }] false
+  | 3 => .tree [{ kind := .dir, content := [], subtree := some 4 }, { kind := .other, content := [12], subtree := some 9 }] false
+  | 4 => .tree [{ kind := .file, content := [11, 10], subtree := none }] false
+  | 5 => .tree [{ kind := .dir, content := [], subtree := some 4 }] true
+  | _ => .missing
+
+def exCfg : Cfg Nat := { store := exStore, isNull := fun t => t == 0 }
+
+/-- sequential schedule and a different interleaving both end terminal with the same sets;
+    tree 4 is loaded once although it is referenced twice -/
+example : let s := run exCfg findUsed 100 [] (init [1] [] [])
+    (terminal s, s.seen, s.blobs, s.loads.count 4) = (true, [4, 3, 2, 1], [11, 10, 10], 1) := by decide
+example : let s := run exCfg findUsed 100 [1, 1, 1, 1, 1, 1, 1, 1, 1, 1, 1, 1] (init [1] [] [])
+    (terminal s, s.loads.count 4, s.seen.length) = (true, 1, 4) := by decide
+example : specOK exCfg [1] 5 [1, 2, 3, 4] [10, 11] [1, 2, 3, 4] = true := by decide
+/-- a missing subtree makes FindUsedBlobs fail; a part-way undecodable tree too -/
+example : (run exCfg findUsed 100 [] (init [1, 7] [] [])).status = .failed := by decide
+example : (run exCfg findUsed 100 [] (init [5] [] [])).status = .failed := by decide
+/-- the fixed checker reports tree 5 and still follows the subtree decoded before the error -/
+example : let s := run exCfg (checker true) 100 [] (init [5] [] [])
+    (terminal s, s.reported, s.seen) = (true, [5], [4, 5]) := by decide
+/-- **negation witness (F15)**: with `break` instead of draining (`checker false`, the code before
+    the fix) the same input reaches the "tree was not read completely" panic. -/
+theorem checker_unfixed_panics :
+    (run exCfg (checker false) 100 [] (init [5] [] [])).status = .panicked := by decide
+
 end Restic.Props.C42
